@@ -254,9 +254,21 @@ func runMarshal(c *Ctx) {
 		v := vg.Value(tc.T, d)
 		for j := 0; j < 4; j++ {
 			prefix := randBytes(c.rng, []int{0, 0, 1, 3, 17}[c.rng.Intn(5)])
-			spare := []int{0, 0, 1, 7, 64, 4096}[c.rng.Intn(6)]
+			spare := []int{0, 0, 1, 2, 3, 5, 7, 13, 21, 64, 4096}[c.rng.Intn(11)]
 			byValue := c.rng.Chance(40) && tc.T.Kind() != reflect.Ptr // a pointer passed "by value" is the by-pointer convention for its target
 			c.addMarshal(tc, v, prefix, spare, byValue, "marshal")
+		}
+	}
+	// the JSON-any codecs append through helpers of their own: nested containers,
+	// with every small spare capacity so that the buffer is reallocated mid-entry
+	jtypes := []reflect.Type{tJSONMap, tJSONArr, reflect.TypeOf(JSONHolder{}), reflect.TypeOf(JSONNested{})}
+	for i := 0; i < scale(c, 40, 1500); i++ {
+		t := jtypes[c.rng.Intn(len(jtypes))]
+		tc := newTypeCase(t, Cfg{WithJSON: true})
+		v := vg.Value(t, 2+c.rng.Intn(2))
+		for _, spare := range []int{0, 1, 2, 3, 5, 8, 13, 21, 34, 64} {
+			prefix := randBytes(c.rng, []int{0, 1, 3, 17}[c.rng.Intn(4)])
+			c.addMarshal(tc, v, prefix, spare, false, "marshal-json")
 		}
 	}
 }
